@@ -945,4 +945,32 @@ class BuiltinMixin:
         self.dict_set(recv, args[0], tv_none())
         return tv_none()
 
+    def m_set_update(self, recv, args, kw, n):
+        """s.update(t) for a symbolic set t: membership afterwards is the pointwise OR of the two
+        membership rows (array map); the insertion order of the new keys is left unspecified."""
+        if len(args) != 1 or kw:
+            raise Unsupported("set.update with several arguments")
+        items = self.concrete_items(args[0])
+        if items is not None:
+            for x in items:
+                self.dict_set(recv, x, tv_none())
+            return tv_none()
+        if args[0].hint not in ("set", "dict"):
+            raise Unsupported("set.update with a non-set argument")
+        a = self.as_addr(recv)
+        b = self.as_addr(args[0])
+        h = self.heap
+        row_a = z3.Select(h.cur["dhas"], a)
+        row_b = z3.Select(h.cur["dhas"], b)
+        x, y = z3.Bools("mx my")
+        new_row = z3.Map(z3.Or(x, y).decl(), row_a, row_b)
+        n0 = self.hread("dklen", (a,))
+        h = h.with_array("dhas", z3.Store(h.cur["dhas"], a, new_row))
+        n1 = fresh("dklen_u", core.IntS)
+        h = h.store("dklen", (a,), n1)
+        h = h.with_array("dkey", z3.Store(h.cur["dkey"], a, fresh("dkey_u", h.cur["dkey"].sort().range())))
+        self.heap = h
+        self.assume(n1 >= n0)
+        return tv_none()
+
 
